@@ -319,6 +319,36 @@ func ruleGLOB(w *World, r *Report) {
 		default:
 			r.ok("GLOB", key+":lists", w.pos(fn.Pos()), "lists the directory with "+lists+" (its error is subject to ERRFLOW)")
 		}
+		// completeness: the append of a match may depend only on the name tests
+		for _, b := range fn.Blocks {
+			for _, in := range b.Instrs {
+				c, ok := in.(*ssa.Call)
+				if !ok || isBuiltinCall(c, "append") == nil {
+					continue
+				}
+				for _, f := range domFacts(b) {
+					okCond := true
+					backSlice(f.Cond, func(v ssa.Value) bool {
+						if cl, ok := v.(*ssa.Call); ok {
+							nm := calleeName(&cl.Call)
+							switch {
+							case nm == "strings.HasPrefix", nm == "strings.HasSuffix", nm == "builtin len", strings.HasSuffix(nm, ".Name"),
+								nm == "path/filepath.Split", nm == "io/ioutil.ReadDir", nm == "os.ReadDir", strings.Contains(nm, "Readdir"), strings.Contains(nm, "ReadDir"):
+							default:
+								okCond = false
+							}
+						}
+						return true
+					})
+					k := key + ":no-extra-filter"
+					if !okCond {
+						r.bad("GLOB", k, w.ipos(f.If), "a directory entry with the right prefix and suffix can be left out because of an additional condition ("+f.Cond.String()+"): not every volume file beside the index file is found")
+					} else {
+						r.ok("GLOB", k, w.ipos(c), "whether an entry is returned depends only on its name (prefix, suffix, length) and on the listing having succeeded")
+					}
+				}
+			}
+		}
 		if hasPrefix && hasSuffix {
 			r.ok("GLOB", key+":literal", w.pos(fn.Pos()), "names are compared literally with strings.HasPrefix(name, <prefix>) and strings.HasSuffix(name, suffix)")
 		} else {
